@@ -102,7 +102,8 @@ func ruleR15b(c *Ctx) {
 	info := pf.info
 	var rawtextFn *types.Func
 	for fn := range pf.funcs {
-		if fn.Name() == "rawtext" {
+		// the package-level normaliser, not a method that happens to share its name
+		if fn.Name() == "rawtext" && fn.Type().(*types.Signature).Recv() == nil {
 			rawtextFn = fn
 		}
 	}
